@@ -99,6 +99,21 @@ pub fn hull_case(cx: &mut Ctx, n: u64, case: &Value) {
             chk("convex_hull", "Polygon::convex_hull", guard(|| Polygon::new(LineString::new(v.clone()), vec![]).convex_hull().exterior().clone()));
         }
     }
+    // f32 scalar type (lattice coordinates are exact in f32; the robust kernel is selected for every float type)
+    {
+        let wf: Vec<Coord<f32>> = ring.iter().map(|c| Coord { x: c.x as f32, y: c.y as f32 }).collect();
+        for (name, v0) in orders(&pts, n, cx.seed) {
+            let v: Vec<Coord<f32>> = v0.iter().map(|c| Coord { x: c.x as f32, y: c.y as f32 }).collect();
+            for (algo, got) in [("quick_hull<f32>", guard(|| quick_hull(&mut v.clone()))), ("graham_hull<f32>", guard(|| graham_hull(&mut v.clone(), false))),
+                                ("MultiPoint<f32>::convex_hull", guard(|| MultiPoint::new(v.iter().map(|c| Point(*c)).collect()).convex_hull().exterior().clone())),
+                                ("LineString<f32>::convex_hull", guard(|| LineString::new(v.clone()).convex_hull().exterior().clone()))] {
+                match got {
+                    Ok(l) if cycle_eq(&l.0, &wf) => cx.ok("hull_f32"),
+                    other => cx.bad("C08", "hull_f32", case, json!({"what": format!("{algo}: {name}"), "got": format!("{other:?}")})),
+                }
+            }
+        }
+    }
     // integer scalar type
     let wi: Vec<Coord<i64>> = ring.iter().map(|c| Coord { x: (c.x as i64 - 1) * 1000, y: (c.y as i64 - 2) * 1000 }).collect();
     for (name, v0) in orders(&pts, n, cx.seed) {
